@@ -307,8 +307,10 @@ def gen_case(item, rng, tier):
             events.append({'tick': t, 'core': 0, 'kind': 'irq'})
         elif k < 0.4:
             events.append({'tick': t, 'core': 0, 'kind': 'fiq'})
-        elif k < 0.45:
+        elif k < 0.43:
             events.append({'tick': t, 'core': 0, 'kind': 'reset'})
+        elif k < 0.45:
+            events.append({'tick': t, 'core': 0, 'kind': 'regswap'})
         else:
             events.append({'tick': t, 'core': 0, 'kind': 'regime', 'regs': regime(rng, cfg)})
     events.sort(key=lambda e: e['tick'])
